@@ -61,6 +61,8 @@ pub struct Allow {
     /// operations may be submitted while the engine is halted (not driver-producible: run for
     /// panic-freedom only)
     pub submit_when_halted: bool,
+    /// two broker-initiated publishes may arrive in one read (cost 1)
+    pub inbound_pairs: bool,
 }
 
 #[derive(Clone, Debug)]
